@@ -36,7 +36,7 @@
 From QV Require Import Base.Res Base.Octets Model.MsgWriter Model.ZoneTree Model.Query Model.QueryW
   Proofs.MsgWriterInvP Proofs.QueryWP Proofs.ServerLimitP Proofs.WriterMonoP Proofs.QueryMonoP Spec.MsgWriterS Spec.RespS.
 From QV Require Model.Server Spec.NameRepr.
-From QV Require Import Spec.ZoneLookupS Spec.MsgWriterAbsS Proofs.MsgWriterDecP Proofs.ComposeTraceP Proofs.ComposeTcP Proofs.ComposeGlueP Proofs.ComposeAbsP.
+From QV Require Import Spec.ZoneLookupS Spec.MsgWriterAbsS Proofs.MsgWriterDecP Proofs.ComposeTraceP Proofs.ComposeTcP Proofs.ComposeGlueP Proofs.ComposeAbsP Proofs.ComposeEndP.
 From QV Require Spec.ResolveS Spec.ResolveRepr.
 
 Theorem c04_response_within_limit : forall negttl buf tcp id rd qname qtype qclass edns limit z len b,
@@ -334,6 +334,51 @@ Theorem c04_only_optional_omitted_partial : forall reqf apex cls wide recs z buf
     end.
 Proof. exact respond_w_vs_resolve. Qed.
 
+(* The endings of handle_non_axfr_query read off the octets: the answering logic succeeded exactly when the decoded
+   response has TC clear and an RCODE other than SERVFAIL (the answering logic itself only ever sets NXDOMAIN and never TC;
+   the error arms end with set_rcode(SERVFAIL) or, over UDP after a Truncation, set_tc(true)). *)
+Theorem c04_endings_on_the_octets : forall reqf apex cls R z negttl buf tcp id rd qname qtype qclass edns limit,
+  Proofs.ZoneInvP.Inv reqf apex cls z R -> good_name apex -> (cls < 65536)%N ->
+  Forall (fun r => Proofs.ComposeKeyP.Pz (fun _ _ => True) (r_type r) (r_rdata r)) R ->
+  512 <= length buf -> good_name qname -> in_zone apex qname = true ->
+  (id < 65536)%N -> (qtype < 65536)%N -> (qclass < 65536)%N -> (forall s, edns = Some s -> (s < 65536)%N) ->
+  exists w len b m,
+    prepare_w buf tcp id rd qname qtype qclass edns limit = Some w /\
+    respond_w negttl buf tcp id rd qname qtype qclass edns limit z = Some (len, b) /\
+    decode_msg (firstn len b) = Some m /\
+    match answering z negttl w_iface qname qtype w with
+    | Ok _ => tc_bit m = false /\ rcode_of_msg m <> 2%N
+    | Err _ => tc_bit m = true \/ rcode_of_msg m = 2%N
+    | Panic => False
+    end.
+Proof. intros. eapply respond_w_endings; eauto. Qed.
+
+(* CLAUSE (iv), premise and conclusion both on the octets: for every zone built by adds, every question, transport and
+   limit, the response decodes, and IF ITS TC BIT IS CLEAR AND ITS RCODE IS NOT SERVFAIL then its answer and authority
+   sections are those of the idealised complete answer r (= resolve, C05) and its additional section is r's minus some
+   records of the optional tail (plus the OPT).  A UDP response with TC clear therefore differs from the complete response
+   to the same question only by omitted additional records.  (What is still only in c04_glue_complete_partial: that the
+   kept prefix M contains all in-bailiwick glue — there for direct referrals.) *)
+Theorem c04_clause_iv : forall reqf apex cls wide recs z buf tcp id rd qname qtype qclass edns limit,
+  (forall c t a b d, reqf c t a b = true -> reqf c t b d = true -> reqf c t a d = true) ->
+  zone_build reqf (zone_new apex cls wide) recs = Some z ->
+  Forall (fun r => good_rd (r_rdata r) /\ (r_type r < 65536)%N) recs -> good_name apex -> (cls < 65536)%N ->
+  512 <= length buf -> good_name qname -> in_zone apex qname = true ->
+  (id < 65536)%N -> (qtype < 65536)%N -> (qclass < 65536)%N -> (forall s, edns = Some s -> (s < 65536)%N) ->
+  exists len b m,
+    respond_w neg_ttl buf tcp id rd qname qtype qclass edns limit z = Some (len, b) /\
+    decode_msg (firstn len b) = Some m /\
+    (tc_bit m = false -> rcode_of_msg m <> 2%N ->
+     exists r, answer_rec z qname qtype tcp = Some r /\
+       ResolveRepr.norm_rec r = ResolveS.resolve reqf apex cls (accepted apex cls recs) qname qtype /\
+       Forall2 (rr_rel xparts) (map q2a (rc_an r)) (m_an m) /\
+       Forall2 (rr_rel xparts) (map q2a (rc_ns r)) (m_ns m) /\
+       exists M X O dsM dsX dsP,
+         map q2a (rc_ar r) = M ++ O /\ Sub X O /\
+         m_ar m = dsM ++ dsX ++ dsP /\ Forall2 (rr_rel xparts) M dsM /\ Forall2 (rr_rel xparts) X dsX /\
+         forallb is_pseudo dsP = true).
+Proof. exact respond_w_clause_iv. Qed.
+
 (* Non-vacuity: zone a. with the delegation sub.a. NS ns.sub.a. / NS ns.other. and the glue ns.sub.a. A 5.6.7.8:
    the lookup of x.sub.a. is a referral, its glue list is that one A record, and do_referral succeeds in 512 octets. *)
 Definition ex_recs4 : list record :=
@@ -356,6 +401,8 @@ Example c04_glue_example :
   end.
 Proof. vm_compute. split; [reflexivity|exact I]. Qed.
 
+Print Assumptions c04_clause_iv.
+Print Assumptions c04_endings_on_the_octets.
 Print Assumptions c04_only_optional_omitted_partial.
 Print Assumptions c04_glue_complete_partial.
 Print Assumptions c04_optional_only_partial.
